@@ -99,6 +99,20 @@ def matrix_optics_applies(spec):
     return True
 
 
+def _families(total, chief, rays, c, R, w):
+    """OPD lists for the two intersection families (both rays back along / both forward), plus, for a ray whose
+    image point lies OUTSIDE the reference sphere (both intersections on the same side: which one is "the"
+    sphere crossing is not fixed by the property), the value with the other intersection of that ray"""
+    fam = []
+    alt = []
+    for root in (0, 1):
+        ref = total(chief, root)
+        fam.append([(ref - total(r, root)) / (w * 1e-3) for r in rays])
+        alt.append([(ref - total(r, 1 - root)) / (w * 1e-3)
+                    if math.dist(r[-1][:3], c) > R else None for r in rays])
+    return fam[0], fam[1], alt
+
+
 def expected_opd(surfs, ps, spec, chief, rays, w, impl_xpl=None):
     """OPD (waves) of every ray of `rays` against the chief-ray reference sphere through the axial point of
     the paraxial exit pupil, both paths measured from a common object-space wavefront.
@@ -130,28 +144,28 @@ def expected_opd(surfs, ps, spec, chief, rays, w, impl_xpl=None):
             off = n_obj * math.dist(recs[0][:3], p0)      # point source: every ray starts on it
         t = _sphere_t(recs[-1][:3], np.array(recs[-1][3:6]), c, R)[root]
         return off + _path_to_image(recs, n_pre) - n_img * t
-    out = []
-    for root in (0, 1):
-        ref = total(chief, root)
-        out.append([(ref - total(r, root)) / (w * 1e-3) for r in rays])
+    out = _families(lambda recs, root: total(recs, root), chief, rays, c, R, w)
     par = max((float(np.linalg.norm(np.cross(np.array(r[0][3:6]), d0))) for r in rays), default=0.0) if infinite else 0.0
-    return out[0], out[1], dict(R=R, xpl=xpl, xpl_src=xpl_src, center=[float(v) for v in c], nonparallel=par,
+    return out[0], out[1], dict(alt=out[2], R=R, xpl=xpl, xpl_src=xpl_src, center=[float(v) for v in c], nonparallel=par,
                                 n_img=n_img, n_obj=n_obj)
 
 
-def compare(data, exp_b, exp_f, atol=1e-6, rtol=1e-9):
+def compare(data, exp_b, exp_f, atol=1e-6, rtol=1e-9, alt=None):
     """indices where the reported OPD is neither expectation (NaN must meet NaN)"""
-    def bad_against(e):
+    def close(a, b):
+        if math.isnan(a) or math.isnan(b):
+            return math.isnan(a) and math.isnan(b)
+        return abs(a - b) <= atol + rtol * (abs(a) + abs(b))
+
+    def bad_against(e, al):
         out = []
         for i, (a, b) in enumerate(zip(data, e)):
-            if math.isnan(a) or math.isnan(b):
-                if math.isnan(a) != math.isnan(b):
-                    out.append(i)
+            if close(a, b) or (al is not None and al[i] is not None and close(a, al[i])):
                 continue
-            if abs(a - b) > atol + rtol * (abs(a) + abs(b)):
-                out.append(i)
+            out.append(i)
         return out
-    bb, bf = bad_against(exp_b), bad_against(exp_f)
+    bb = bad_against(exp_b, alt[0] if alt else None)
+    bf = bad_against(exp_f, alt[1] if alt else None)
     return bb if len(bb) <= len(bf) else bf
 
 
@@ -172,24 +186,24 @@ def expected_opd_with(defects, surfs, chief, rays, w, info, dist_xy, epd, Hy, ma
     n_obj = 1.0 if 'object-space-index' in defects else info['n_obj']
     c, R = info['center'], info['R']
     p0 = np.array(chief[0][:3])
-    out = []
-    for root in (0, 1):
-        def total(recs, dxy):
-            off = 0.0
-            if infinite:
-                d = np.array(recs[0][3:6])
-                dp = np.array(recs[0][:3]) - p0
-                if 'tilt-ignores-vignetting' in defects or 'signed-max-y-field' in defects:
-                    dp = np.array([dxy[0] * epd / 2, dxy[1] * epd / 2, 0.0]) if 'tilt-ignores-vignetting' in defects else dp
-                    if 'signed-max-y-field' in defects:
-                        d = np.array([d[0], math.sin(math.radians(max_y_field * Hy)), d[2]])
-                    dp = np.array([dp[0], dp[1], 0.0])
-                off = n_obj * float(np.dot(d, dp))
-            t = _sphere_t(recs[-1][:3], np.array(recs[-1][3:6]), c, R)[root]
-            return off + _path_to_image(recs, n_pre) - n_img * t
-        ref = total(chief, (0.0, 0.0))
-        out.append([(ref - total(r, dxy)) / (w * 1e-3) for r, dxy in zip(rays, dist_xy)])
-    return out
+    dmap = {id(r): dxy for r, dxy in zip(rays, dist_xy)}
+    dmap[id(chief)] = (0.0, 0.0)
+
+    def total(recs, root):
+        dxy = dmap[id(recs)]
+        off = 0.0
+        if infinite:
+            d = np.array(recs[0][3:6])
+            dp = np.array(recs[0][:3]) - p0
+            if 'tilt-ignores-vignetting' in defects or 'signed-max-y-field' in defects:
+                dp = np.array([dxy[0] * epd / 2, dxy[1] * epd / 2, 0.0]) if 'tilt-ignores-vignetting' in defects else dp
+                if 'signed-max-y-field' in defects:
+                    d = np.array([d[0], math.sin(math.radians(max_y_field * Hy)), d[2]])
+                dp = np.array([dp[0], dp[1], 0.0])
+            off = n_obj * float(np.dot(d, dp))
+        t = _sphere_t(recs[-1][:3], np.array(recs[-1][3:6]), c, R)[root]
+        return off + _path_to_image(recs, n_pre) - n_img * t
+    return _families(total, chief, rays, c, R, w)
 
 
 def explain(case, exp_info):
@@ -198,9 +212,9 @@ def explain(case, exp_info):
     import itertools
     for k in range(1, len(DEFECTS) + 1):
         for combo in itertools.combinations(DEFECTS, k):
-            eb, ef = expected_opd_with(set(combo), case['surfs'], case['chief'], case['rays'], case['w'], exp_info,
-                                       case['dist'], case['epd'], case['H'][1], case['max_y_field'], case['infinite'])
-            if not compare(case['data'], eb, ef, atol=1e-5, rtol=1e-8):
+            eb, ef, alt = expected_opd_with(set(combo), case['surfs'], case['chief'], case['rays'], case['w'], exp_info,
+                                            case['dist'], case['epd'], case['H'][1], case['max_y_field'], case['infinite'])
+            if not compare(case['data'], eb, ef, atol=1e-5 + newton_slack(case), rtol=1e-8, alt=alt):
                 return list(combo)
     return None
 
@@ -258,7 +272,7 @@ def oracle_case(case):
     """None when the reported OPD is the property's quantity, else a witness dict"""
     eb, ef, info = expected_opd(case['surfs'], case['ps'], case['spec'], case['chief'], case['rays'], case['w'],
                                 impl_xpl=case['xpl'])
-    bad = compare(case['data'], eb, ef, atol=1e-6 + newton_slack(case))
+    bad = compare(case['data'], eb, ef, atol=1e-6 + newton_slack(case), alt=info['alt'])
     # the chief ray itself: exactly zero (to the Newton tolerance through iterated surfaces)
     chief_bad = [i for i, (d, v) in enumerate(zip(case['dist'], case['data']))
                  if d == (0.0, 0.0) and not (abs(v) <= newton_slack(case))]
